@@ -1574,9 +1574,13 @@ func (t *Terminal) UpdateList(merger *Merger) {
 		t.revision = newRevision
 		t.version++
 	}
+	// Events for the key loop are sent after t.mutex is released: the key loop may
+	// be waiting for the mutex (e.g. at the end of an execute action) while the
+	// channel is full, and it cannot drain the channel before it gets the mutex
+	var events []tui.Event
 	if t.triggerLoad {
 		t.triggerLoad = false
-		t.eventChan <- tui.Load.AsEvent()
+		events = append(events, tui.Load.AsEvent())
 	}
 	if prevIndex >= 0 {
 		pos := t.cy - t.offset
@@ -1600,21 +1604,24 @@ func (t *Terminal) UpdateList(merger *Merger) {
 		case 0:
 			zero := tui.Zero.AsEvent()
 			if _, prs := t.keymap[zero]; prs {
-				t.eventChan <- zero
+				events = append(events, zero)
 			}
 			// --sync, only 'focus' is bound, but no items to focus
 			needActivation = t.suppress && !t.hasResultActions && !t.hasLoadActions && t.hasFocusActions
 		case 1:
 			one := tui.One.AsEvent()
 			if _, prs := t.keymap[one]; prs {
-				t.eventChan <- one
+				events = append(events, one)
 			}
 		}
 	}
 	if t.hasResultActions {
-		t.eventChan <- tui.Result.AsEvent()
+		events = append(events, tui.Result.AsEvent())
 	}
 	t.mutex.Unlock()
+	for _, event := range events {
+		t.eventChan <- event
+	}
 	t.reqBox.Set(reqInfo, nil)
 	t.reqBox.Set(reqList, nil)
 	if needActivation {
